@@ -11,7 +11,7 @@ RUN_FILES = ["Model/C18_run.v"]
 EPS = Fr(0.02)            # masked_ints' epsilon, the exact binary64 value
 TOL = Fr(1, 2 ** 26)      # pixels; slack granted to binary64 rounding next to a border on non-dyadic inputs
 BIG = 1e30
-MODULES = ("area_index", "grid", "gridfilter", "bucket", "ll2cr")
+MODULES = ("area_index", "grid", "quick_linesample", "gridfilter", "bucket", "ll2cr")
 
 CRS = {
     "longlat": "+proj=longlat +datum=WGS84 +no_defs",
@@ -157,6 +157,48 @@ def gen_points(ctx, a):
 
 MALFORMED = [(float("nan"), 10.0), (10.0, float("nan")), (float("nan"), float("nan")), (float("inf"), 0.0),
              (0.0, float("-inf")), (1e30, 0.0), (0.0, 95.0), (400.0, 10.0), (-1e300, 1e300)]
+
+
+def quick_cases(ctx):
+    """(source, [targets]) for utils.generate_quick_linesample_arrays: small sources with targets k * 65536 (+- a few)
+    pixels away in every direction (where a uint16 cast of the index wraps), and sources whose width / height is
+    exactly 65535 / 65536 (last uint16 size, first int32 size) with targets across their far edge."""
+    r = ctx.rng
+    out = []
+
+    def tgt(a, u0, v0, tw, th, s):
+        xmin, ymin, xmax, ymax = (Fr(e) for e in a.ext)
+        ext = (float(xmin + (u0 + s) * a.dx), float(ymax - (v0 + s + th) * a.dy), float(xmin + (u0 + s + tw) * a.dx), float(ymax - (v0 + s) * a.dy))
+        return Area(a.crs, ext, tw, th, "ql-target")
+    small = [Area("eqc", (-500.0, -500.0, 500.0, 500.0), 10, 10, "ql-small-100m"),
+             Area("merc", (1000.0, 2000.0, 1100.0, 2100.0), 10, 10, "ql-small-10m"),
+             Area("laea", (-64.0, -64.0, 64.0, 64.0), 8, 16, "ql-small-dyadic"),
+             Area("stere", (20000.0, -1000020.0, 20100.0, -1000000.0), 10, 4, "ql-small-10m"),
+             Area("eqc", (0.0, 300.0, 300.0, 0.0), 12, 10, "ql-small-flipped-y")]
+    for a in small[:ctx.n(5, 5)]:
+        ts = []
+        ks = [-1, 1, -2, 2] if a.tag != "ql-small-100m" else [-1, 1]
+        for k in ks:
+            for j in ([-3, 4] if not ctx.thorough else [-3, 0, 4, a.w - 2]):
+                s = r.choice([Fr(0), Fr(1, 4)])
+                ts.append(tgt(a, k * 65536 + j, 2, 6, 3, s))                    # left / right
+                if a.crs != "eqc" or abs(k) == 1 or float(abs(a.dy)) < 50:
+                    ts.append(tgt(a, 2, k * 65536 + j, 3, 6, s))                # above / below
+            ts.append(tgt(a, k * 65536 - 2, -k * 65536 - 2, 5, 5, Fr(0)))       # diagonal
+        ts.append(tgt(a, -3, -3, a.w + 6, a.h + 6, Fr(1, 4)))                   # plain overhang
+        ts.append(tgt(a, 65536 + a.w - 2, 1, 5, 2, Fr(0)))                      # >= 65536 + size
+        out.append((a, ts))
+    wide = [Area("eqc", (0.0, 0.0, 655350.0, 10.0), 65535, 1, "ql-wide-65535"),
+            Area("eqc", (0.0, 0.0, 655360.0, 20.0), 65536, 2, "ql-wide-65536"),
+            Area("eqc", (0.0, 0.0, 30.0, 655350.0), 3, 65535, "ql-tall-65535"),
+            Area("merc", (-100.0, -327680.0, 100.0, 327680.0), 2, 65536, "ql-tall-65536")]
+    for a in wide:
+        ts = [tgt(a, a.w - 4, -2, 8, a.h + 4, Fr(0)) if a.w > 60000 else tgt(a, -2, a.h - 4, a.w + 4, 8, Fr(0)),
+              tgt(a, -4, -2, 8, min(a.h, 4) + 3, Fr(1, 4)),
+              tgt(a, -65536 - 3, -1, 6, min(a.h, 3) + 1, Fr(0)) if a.w > 60000 else tgt(a, -1, -65536 - 3, min(a.w, 3) + 1, 6, Fr(0)),
+              tgt(a, 2 * 65536 - 3, 0, 6, min(a.h, 2), Fr(0)) if a.w > 60000 else tgt(a, 0, 2 * 65536 - 3, min(a.w, 2), 6, Fr(0))]
+        out.append((a, ts))
+    return out
 
 
 def target_for(ctx, a, k):
@@ -440,7 +482,42 @@ def check_area_obs(ctx, a, ai, spec, obs, cases, agree):
                 cases["grid_img"].append("(%s, %s, %s, %d)" % (an, fhex(x), fhex(y), code))
 
 
-CHK = {"area": ("chk_area", "get_array_indices_from_lonlat/_from_projection_coordinates"),
+def check_quick_obs(ctx, a, ai, spec, obs, cases):
+    an = "a%d" % ai
+    core = {k: spec[k] for k in ("proj", "extent", "w", "h")}
+    for t, tspec, m in zip(spec["_ql"], spec["ql_targets"], obs["quick"]):
+        rp = {"area": dict(core, ql_targets=[tspec]), "module": "quick_linesample"}
+        if "error" in m:
+            ctx.add_failure("C18.quick_linesample.exception", "generate_quick_linesample_arrays / get_array_from_linesample raised %s for source extent %s "
+                            "shape (%d, %d), target extent %s shape (%d, %d)" % (m["error"], a.ext, a.h, a.w, t.ext, t.h, t.w), rp)
+            continue
+        for j, (xh, yh, row, col, code, codem) in enumerate(zip(m["x"], m["y"], m["rows"], m["cols"], m["img"], m["imgm"])):
+            x, y = uh(xh), uh(yh)
+            cell = code_cell(code, a.w) if (code == codem and code >= 0) else "bad"
+            kind = "inconsistent" if cell == "bad" else verdict(a, cell, x, y, tol=tol_for(a, x, y))
+            uv = a.uv_of(x, y)
+            far = uv is not None and (uv[0] <= -65536 or uv[0] >= 65536 or uv[1] <= -65536 or uv[1] >= 65536)
+            if kind in ("outside_attributed", "wrong_cell") and far:
+                kind = "wrapped_far_outside"
+            cat = ("wrap_distance" if far else category(a, x, y))
+            ctx.count("quick/%s/%s" % (m["cdtype"], cat))
+            ctx.case(("ql", ai, xh, yh), nontrivial=cat != "interior",
+                     sample={"quick_" + cat: {"crs": a.crs, "source_extent": a.ext, "source_shape": [a.h, a.w], "target_extent": t.ext,
+                                              "target_shape": [t.h, t.w], "pixel": j, "projected": [x, y],
+                                              "fractional": None if uv is None else [float(uv[0]), float(uv[1])],
+                                              "row_col": [row, col], "dtype": m["cdtype"], "cell": str(cell)}})
+            if kind:
+                ctx.add_failure("C18.quick_linesample.%s" % kind,
+                                "generate_quick_linesample_arrays + get_array_from_linesample: target pixel %d at projected (%r, %r), fractional source "
+                                "position %s, gets (row, col) = (%d, %d) [%s/%s] and samples source cell %s of extent %s shape (%d, %d); target extent %s "
+                                "shape (%d, %d): %s" % (j, x, y, None if uv is None else (float(uv[0]), float(uv[1])), row, col, m["rdtype"], m["cdtype"],
+                                                        cell, a.ext, a.h, a.w, t.ext, t.h, t.w, kind), dict(rp, pixel=j, kind=kind))
+                continue
+            cases["quick"].append("(%s, %s, %s, %d, %d, %d)" % (an, fhex(x), fhex(y), row, col, code))
+
+
+CHK = {"quick": ("chk_quick", "generate_quick_linesample_arrays + get_array_from_linesample"),
+       "area": ("chk_area", "get_array_indices_from_lonlat/_from_projection_coordinates"),
        "area_scalar": ("chk_area_scalar", "scalar get_array_indices_from_lonlat"),
        "grid": ("chk_grid", "get_linesample + get_image_from_lonlats"), "grid_img": ("chk_grid_img", "ImageContainerQuick.resample"),
        "gf": ("chk_gf", "GridFilter.get_valid_index"), "bucket": ("chk_bucket", "BucketResampler.x_idxs/y_idxs"),
@@ -471,15 +548,25 @@ def run(ctx):
                 "the one-pixel band outside each edge (incl. the 0.02-pixel eps band), border lines and +-1 ulp, negative fractional indices, "
                 "interior, far outside, and NaN/inf/1e30/out-of-range lon/lat; all five modules run through their public entry points on the "
                 "same lon/lat (plus projection-coordinate and scalar entry points of the area, masked/filled images, ImageContainerQuick on an "
-                "overhanging half-pixel-shifted target).  A case is non-trivial when the point is not strictly interior far from a border "
+                "overhanging half-pixel-shifted target); utils.generate_quick_linesample_arrays + ImageContainer.get_array_from_linesample on small "
+                "sources with targets k*65536 (+- a few) pixels away in each direction and on sources of width/height 65535 / 65536.  A case is non-trivial when the point is not strictly interior far from a border "
                 "(edge band, border line, outside, non-finite); distinct = distinct (area, lon, lat)")
     areas = gen_areas(ctx)
     specs = build_request(ctx, areas)
-    res = ctx.impl("c18", {"areas": specs})["areas"]
+    n_main = len(areas)
+    for a, ts in quick_cases(ctx):
+        s = a.spec()
+        s.update({"xy": [], "lonlat": [], "scalar": [], "ql_targets": [t.spec() for t in ts], "_ql": ts})
+        areas.append(a)
+        specs.append(s)
+    res = ctx.impl("c18", {"areas": [{k: v for k, v in s.items() if k != "_ql"} for s in specs]})["areas"]
     cases = {k: [] for k in CHK}
     agree = [0]
     for ai, (a, spec, obs) in enumerate(zip(areas, specs, res)):
-        check_area_obs(ctx, a, ai, spec, obs, cases, agree)
+        if ai < n_main:
+            check_area_obs(ctx, a, ai, spec, obs, cases, agree)
+        else:
+            check_quick_obs(ctx, a, ai, spec, obs, cases)
     ctx.count("agreement_checked", agree[0])
     defs = "".join("Definition a%d : fa := %s.\n" % (i, a.coq()) for i, a in enumerate(areas))
     texts = []
@@ -511,6 +598,13 @@ def replay(ctx, data):
     if not spec:
         return True
     a = Area(next((k for k, v in CRS.items() if v == spec["proj"]), "longlat"), [uh(e) for e in spec["extent"]], spec["w"], spec["h"], "replay")
+    if case.get("module") == "quick_linesample":
+        spec.update({"xy": [], "lonlat": [], "scalar": []})
+        spec["_ql"] = [Area(a.crs, [uh(e) for e in t["extent"]], t["w"], t["h"], "replay") for t in spec["ql_targets"]]
+        obs = ctx.impl("c18", {"areas": [{k: v for k, v in spec.items() if k != "_ql"}]})["areas"][0]
+        n0 = len(ctx.failures)
+        check_quick_obs(ctx, a, 0, spec, obs, {k: [] for k in CHK})
+        return len(ctx.failures) > n0
     if case.get("module") != "ll2cr_count":
         spec["xy"] = [case["xy"]] if "xy" in case else []
         spec["lonlat"] = [case["lonlat"]] if "lonlat" in case else []
